@@ -920,7 +920,7 @@ def subspace_cases(tier, descs):
             continue
         if inf.k == 3 and len(desc[1]) > 0:
             continue
-        for d in ((3,) if tier == "quick" or inf.k == 3 else (3, 4)):
+        for d in ((3,) if tier == "quick" or inf.k == 3 or len(desc[1]) == 2 else (3, 4)):
             choices = SUBSPACES[d] if inf.k <= 2 else SUBSPACES[d][:3]
             if tier == "quick" and inf.k == 2:
                 choices = [(0, 1), (1, 2), (0, 2), (2, 1)]
